@@ -29,6 +29,7 @@ ALWAYS_INLINE = {
     "transactions::range_bounds",
     "staking::StakeKeeper::validate_percentage",
     "bank::coins_to_string",
+    "staking::StakeKeeper::remove_staker",
 }
 
 
@@ -389,6 +390,20 @@ LOOP_HOFS = {
 }
 UNIT = {"k": "const", "ck": "zst_or_other", "ty": "()", "text": "()"}
 
+# A13: Option / Result combinators that take a closure become the `match` they abbreviate, closure body spliced in:
+#   x.map(f)  x.and_then(f)  x.map_err(f)  x.unwrap_or_else(f)  x.ok_or_else(f)  x.map_or(d, f)  x.map_or_else(g, f) is left alone
+# (receiver enum, variant carrying the payload the closure gets | None when it gets nothing, what each arm yields)
+COMBINATORS = {
+    "std::option::Option::map": ("std::option::Option", "Some", "wrap:Some", "None"),
+    "std::option::Option::and_then": ("std::option::Option", "Some", "raw", "None"),
+    "std::option::Option::unwrap_or_else": ("std::option::Option", None, "payload", "closure"),
+    "std::option::Option::ok_or_else": ("std::option::Option", None, "ok-payload", "err-closure"),
+    "std::result::Result::map": ("std::result::Result", "Ok", "wrap:Ok", "Err"),
+    "std::result::Result::and_then": ("std::result::Result", "Ok", "raw", "Err"),
+    "std::result::Result::map_err": ("std::result::Result", "Err", "wrap:Err", "Ok"),
+}
+VARIANTS = {"std::option::Option": [[0, "None"], [1, "Some"]], "std::result::Result": [[0, "Ok"], [1, "Err"]]}
+
 
 def _pl(l, *proj):
     return {"l": l, "p": list(proj)}
@@ -524,6 +539,86 @@ class Desugarer:
         self.report.append((name, c["key"], line))
         return ck
 
+    def comb(self, c, blk):
+        """rewrite `dst = x.map(closure)` (and the other COMBINATORS) into a switch on x with the closure body spliced in"""
+        t = blk["term"]
+        enum, takes, hit, miss = COMBINATORS[t["callee"]["key"]]
+        args = t["args"]
+        if len(args) != 2 or t["target"] is None:
+            return False
+        ck = self._closure_of(c, args[1])
+        cl = self.inl.by_key.get(ck) if ck else None
+        if cl is None or cl["arg_count"] != (2 if takes else 1):
+            return False
+        line = t.get("line", 0)
+        L = len(c["locals"])
+        n_x, n_d, n_v, n_env, n_r = range(L, L + 5)
+        a0 = args[0]
+        x_ty = copy.deepcopy(c["locals"][a0["place"]["l"]]) if a0.get("k") in ("copy", "move") and not a0["place"]["p"] else {"s": "?"}
+        c["locals"].extend([x_ty, {"s": "isize"}, copy.deepcopy(cl["locals"][2]) if takes else {"s": "?"}, {"s": "{closure}"}, copy.deepcopy(cl["locals"][0])])
+        B = max(b["id"] for b in c["blocks"]) + 1
+        BH, BM, BR, BU = B, B + 1, B + 2, B + 3          # hit arm (closure runs), miss arm, after the closure, unreachable
+        dst, target = t["dst"], t["target"]
+        clocal = args[1]["place"]["l"]
+        variants = VARIANTS[enum]
+        others = [n for v, n in variants]
+
+        def asg(d, rv, tag="comb"):
+            return {"k": "assign", "dst": d, "rv": rv, "line": line, "inl": tag}
+
+        def agg(variant, op):
+            return {"k": "aggregate", "agg": "adt", "adt": enum if variant in others else "std::result::Result", "variant": variant,
+                    "fields": ["0"] if op is not None else [], "ops": [op] if op is not None else []}
+        if takes:
+            hit_variant = takes
+            miss_variant = [n for n in others if n != takes][0]
+        else:
+            # the closure runs when there is nothing: None
+            hit_variant = "None"
+            miss_variant = "Some"
+        blk["stmts"].append(asg(_pl(n_x), {"k": "use", "op": a0}))
+        blk["stmts"].append(asg(_pl(n_d), {"k": "discriminant", "place": _pl(n_x), "adt": enum}))
+        tgt = []
+        for v, n in variants:
+            tgt.append([v, BH if n == hit_variant else BM, n])
+        blk["term"] = {"k": "switch", "discr": _mv(n_d), "discr_ty": "isize", "discr_of": _pl(n_x), "adt": enum, "variants": variants,
+                       "targets": tgt, "otherwise": BU, "line": line, "comb": t["callee"]["name"]}
+        ccallee = {"key": ck, "local": True, "name": "call_once", "gargs": [], "inputs": [], "output": cl["locals"][0]["s"]}
+        call_args = [_mv(n_env)] + ([_mv(n_v)] if takes else [])
+        st = [asg(_pl(n_env), {"k": "use", "op": _mv(clocal)})]
+        if takes:
+            st.insert(0, asg(_pl(n_v), {"k": "use", "op": _mv(n_x, *_payload_proj(hit_variant, enum))}))
+        bh = {"id": BH, "stmts": st, "term": {"k": "call", "callee": ccallee, "args": call_args, "dst": _pl(n_r), "target": BR, "line": line}}
+        # what the two arms yield
+        if hit.startswith("wrap:"):
+            rv_hit = agg(hit[5:], _mv(n_r))
+        elif hit == "raw" or hit == "payload":
+            rv_hit = {"k": "use", "op": _mv(n_r)}
+        else:   # ok-payload: handled below (closure is on the miss side for *_or_else)
+            rv_hit = None
+        if not takes:
+            # unwrap_or_else / ok_or_else: hit arm = None -> closure; miss arm = Some(v)
+            if miss == "closure":
+                rv_after = {"k": "use", "op": _mv(n_r)}
+                rv_other = {"k": "use", "op": _mv(n_x, *_payload_proj("Some", enum))}
+            else:
+                rv_after = {"k": "aggregate", "agg": "adt", "adt": "std::result::Result", "variant": "Err", "fields": ["0"], "ops": [_mv(n_r)]}
+                rv_other = {"k": "aggregate", "agg": "adt", "adt": "std::result::Result", "variant": "Ok", "fields": ["0"], "ops": [_mv(n_x, *_payload_proj("Some", enum))]}
+        else:
+            rv_after = rv_hit
+            if miss_variant == "None":
+                rv_other = agg("None", None)
+            else:
+                rv_other = agg(miss_variant, _mv(n_x, *_payload_proj(miss_variant, enum)))
+        blocks = [bh,
+                  {"id": BM, "stmts": [asg(copy.deepcopy(dst), rv_other)], "term": {"k": "goto", "target": target, "line": line}},
+                  {"id": BR, "stmts": [asg(copy.deepcopy(dst), rv_after)], "term": {"k": "goto", "target": target, "line": line}},
+                  {"id": BU, "stmts": [], "term": {"k": "unreachable", "line": line}}]
+        c["blocks"].extend(blocks)
+        self.inl.splice(c, bh, cl)
+        self.report.append((t["callee"]["name"], c["key"], line))
+        return ck
+
     def run(self):
         gone = set()
         progress = True
@@ -538,6 +633,11 @@ class Desugarer:
                     t = blk["term"]
                     if t["k"] == "call" and t["callee"].get("key") in LOOP_HOFS:
                         ck = self.one(c, blk)
+                        if ck:
+                            gone.add(ck)
+                            progress = True
+                    elif t["k"] == "call" and t["callee"].get("key") in COMBINATORS:
+                        ck = self.comb(c, blk)
                         if ck:
                             gone.add(ck)
                             progress = True
